@@ -17,7 +17,7 @@ def parseKind? (s : String) : Option Kind :=
 
 def parseMod? (s : String) : Option Mod :=
   match s.splitOn ":" with
-  | [k, d] => do some ⟨← parseKind? k, ← parseBool? d⟩
+  | [k, d, n] => do some ⟨← parseKind? k, ← parseBool? d, ← parseNat? n⟩
   | _ => none
 
 def parseMods? (s : String) : Option (List Mod) :=
@@ -55,6 +55,7 @@ def parseOp? (ws : List String) : Option Op :=
   | ["lstep"] => some .loopStep
   | ["finalize"] => some .finalize
   | ["restore", m] => do some (.restore (← parseMode? m))
+  | ["observe"] => some .observe
   | _ => none
 
 def stepLine (d : DState) (line : String) : DState × String :=
@@ -62,9 +63,9 @@ def stepLine (d : DState) (line : String) : DState × String :=
   | ["cfg", ms, ts, tv] =>
       match parseMods? ms, parseTvecs? ts, parseRatList? tv with
       | some mods, some tvecs, some timevec =>
-          if tvecs.length ≠ mods.length + 1 then (d, "bad-op") else
+          if tvecs.length ≠ mods.length + 2 then (d, "bad-op") else
           let T := Times.ofArrays (tvecs.map List.toArray).toArray
-          let fl := collect Gen.collectFuncs mods
+          let fl := collect Gen.loopRows mods
           let c : Cfg Nat := ⟨makePlan T fl, timevec, mods.length + 1, fun n _ => n + 1, 0⟩
           let d' : DState := ⟨c, fresh c⟩
           (d', showState d' s!"ok len={c.plan.length}")
